@@ -87,17 +87,20 @@ Sigs == <<  <<>>,
             << [n |-> "m", t |-> "MapSU"], [n |-> "p", t |-> "OptVecPair"] >>,
             << [n |-> "b", t |-> "BoxNested"], [n |-> "i", t |-> "I64"], [n |-> "u", t |-> "Unit"] >> >>
 
+RespShape(j) == CASE Mod(j, 16) = 2 -> "Tup1" [] Mod(j, 16) = 6 -> "VecTup1" [] Mod(j, 16) = 10 -> "Tup2" [] Mod(j, 16) = 14 -> "ArrB"
+                  [] Mod(j, 2) = 0 -> "QResp" [] OTHER -> "QRespB"
 Mk(name, kind, j) ==
     [name |-> name, kind |-> kind, args |-> Sigs[Mod(j, Len(Sigs)) + 1],
      outcome |-> IF Mod(j, 3) = 2 THEN "err" ELSE "ok",
      \* the declared response type of a query, and whether it is given explicitly (`resp=`) with an aliased result type (C16)
-     resp |-> IF kind # "query" THEN "" ELSE IF Mod(j, 2) = 0 THEN "QResp" ELSE "QRespB",
+     \* (response types that are no type paths: a one-element tuple, a pair, a vector of one-element tuples, an array)
+     resp |-> IF kind # "query" THEN "" ELSE RespShape(j),
      explicit |-> kind = "query" /\ (Mod(j, 4) = 3 \/ Mod(j, 8) = 5),
      \* how the signature is written when `resp=` is given: an aliased result type, or a plain Result of *another* type
      \* (the declared response type is the attribute's; `ret` is what the handler actually returns)
      ctxkind |-> "",      \* "" : the context parameter is written with the kind's own context type
      sig |-> IF kind = "query" /\ Mod(j, 8) = 5 THEN "plain" ELSE "alias",
-     ret |-> IF kind # "query" THEN "" ELSE IF Mod(j, 8) = 5 THEN "QResp" ELSE IF Mod(j, 2) = 0 THEN "QResp" ELSE "QRespB"]
+     ret |-> IF kind # "query" THEN "" ELSE IF Mod(j, 8) = 5 THEN "QResp" ELSE RespShape(j)]
 
 InstMethod(j) == [name |-> NameInstantiate, kind |-> "instantiate", args |-> Sigs[Mod(j, 3) + 1], outcome |-> "ok", resp |-> "", explicit |-> FALSE, ctxkind |-> "",
                   sig |-> "alias", ret |-> ""]
